@@ -9,6 +9,8 @@ pub struct SegmentSizes {
     // The maximum uTP payload size to probe for. Calculated from link MTU
     // (default 1500, ethernet)
     max_ss: u16,
+    // The uTP payload size that fits the configured link MTU. Nothing larger is ever sent.
+    link_max_ss: u16,
 
     cooldown_remaining_packets: u16,
     cooldown_max_packets: u16,
@@ -53,13 +55,16 @@ impl SegmentSizes {
         Self {
             min_ss,
             max_ss,
+            link_max_ss: max_ss,
             cooldown_remaining_packets: 1,
             cooldown_max_packets: config.probe_expiry_cooldown_packets,
         }
     }
 
     pub fn on_payload_delivered(&mut self, payload_size: usize) {
-        let payload_size = payload_size.min(u16::MAX as usize) as u16;
+        // The peer may use larger segments than our link allows: the size of what it sends (or
+        // claims to have received) never raises our segment size above the configured link MTU.
+        let payload_size = payload_size.min(self.link_max_ss as usize) as u16;
         self.min_ss = self.min_ss.max(payload_size);
         self.max_ss = self.max_ss.max(self.min_ss);
     }
